@@ -14,7 +14,7 @@
    firstpos / lastpos / followpos tables equal the model's, and the automaton ToDFA returns passes the certified check
    against the tree's expression - hence is the position automaton of that tree (last theorem below). *)
 From Coq Require Import String List Bool NArith.
-From Verif Require Import Reg.Followpos Reg.FollowposRe.
+From Verif Require Import Reg.Followpos Reg.FollowposRe Reg.FollowposQuant.
 From Verif Require Import Base.CharSet Reg.Dfa Reg.Regex Reg.EquivCheck Reg.Pattern Reg.PatSem Reg.PatCheck.
 From VerifGen Require Import RuneGo.
 Import ListNotations.
@@ -92,4 +92,24 @@ Example followpos_example :
                 (NCons (NAlt (NCons NEmpty (NCons (NChar 97) NNil))) (NCons (NChar 99) NNil))) in
   tables_agree r 61166 false [1;2;3;4]%nat [5]%nat [(1, [1;2;3;4]); (2, [1;2;3;4]); (3, [4]); (4, [5])]%nat
   && Followpos.accepts r 61166 [97;98;97;99] && Followpos.accepts r 61166 [99] && negb (Followpos.accepts r 61166 [99;97]) = true.
+Proof. vm_compute. reflexivity. Qed.
+
+(* ---- quantifyNode: what a quantified tree denotes, for every operand tree and every quantifier ---- *)
+Theorem quantified_tree_denotes_the_documented_repetition :
+  forall x w,
+    (lang (quantify x QOpt) w <-> w = [] \/ lang x w) /\
+    (lang (quantify x QStar) w <-> exists i, power (lang x) i w) /\
+    (lang (quantify x QPlus) w <-> exists i, (1 <= i)%nat /\ power (lang x) i w) /\
+    (forall m, lang (quantify x (QRange m None)) w <-> exists i, (m <= i)%nat /\ power (lang x) i w) /\
+    (forall m k, (m <= k)%nat -> (lang (quantify x (QRange m (Some k))) w <-> exists i, (m <= i <= k)%nat /\ power (lang x) i w)).
+Proof.
+  intros x w. split; [apply quantify_opt|]. split; [apply quantify_star|]. split; [apply quantify_plus|].
+  split; [intros m; apply quantify_at_least | intros m k H; apply quantify_range; exact H].
+Qed.
+Print Assumptions quantified_tree_denotes_the_documented_repetition.
+
+(* non-vacuity: a{1,2} is (a)(ε|a), modulo the one-operand concatenation the parser wraps a lone item in *)
+Example quantify_example :
+  quantified_as_modelled (NCat (NCons (NChar 97) NNil)) (QRange 1 (Some 2%nat))
+    (NCat (NCons (NCat (NCons (NChar 97) (NCons (NAlt (NCons NEmpty (NCons (NChar 97) NNil))) NNil))) NNil)) = true.
 Proof. vm_compute. reflexivity. Qed.
